@@ -98,3 +98,33 @@ Definition greach (b : bool) (n : nat) (s : gst) : Prop := exists p, gexec b (gi
 Definition count_alt (a : alt -> bool) (s : gst) : nat := length (filter a (alts s)).
 Definition is_winner (a : alt) := match a with Winner | Continued => true | _ => false end.
 Definition is_open (a : alt) := match a with Parked | Took | Winner => true | _ => false end.
+
+(* ---- several activations of one gateway node at the same time ----
+   Every token that arrives at the gateway is an activation of its own: its own alternatives, its own termination
+   channels. The flag the compare-and-swap decides on is either the activation's own ([per_activation] = true: a
+   variable of the case that handles the token's arrival, Gen/Facts.v src_determination_flag_per_activation) or one
+   cell of the node that all activations share. A step names the activation it belongs to. *)
+Record mst := { acts : list gst; nodeflag : bool }.
+
+Definition set_first (g : gst) (f : bool) : gst :=
+  {| alts := alts g; first := f; tonotify := tonotify g; boxes := boxes g; conts := conts g |}.
+
+Definition mstep (per_activation buffered : bool) (s : mst) (al : nat * glabel) : option mst :=
+  match nth_error (acts s) (fst al) with
+  | None => None
+  | Some g =>
+      match gstep buffered (if per_activation then g else set_first g (nodeflag s)) (snd al) with
+      | None => None
+      | Some g' => Some {| acts := upd (acts s) (fst al) g';
+                           nodeflag := if per_activation then nodeflag s else first g' |}
+      end
+  end.
+
+Definition minit (k n : nat) : mst := {| acts := repeat (ginit n) k; nodeflag := false |}.
+
+Fixpoint mexec (per b : bool) (s : mst) (p : list (nat * glabel)) : option mst :=
+  match p with
+  | [] => Some s
+  | l :: r => match mstep per b s l with Some s' => mexec per b s' r | None => None end
+  end.
+Definition mreach (per b : bool) (k n : nat) (s : mst) : Prop := exists p, mexec per b (minit k n) p = Some s.
